@@ -906,6 +906,28 @@ def study(ctx, focus, escalate=False):
         if tab_m != tab_i and res['mismatch'] is None:
             res['mismatch'] = {'history': hi, 'kind': kind, 'step': 'final-tables',
                                'impl': repr(tab_i), 'model': repr(tab_m), 'ops': h}
+        # persisted versions (what schedule.build compares the software with)
+        rows = fin[2]
+        if any(r is None for r in rows):
+            ver_m = {'exc': True}
+        else:
+            lv = [{}, {}, {}]
+            for r in rows:
+                t, a, sv, vn, av, svv, vv = r[1]
+                for d, key, ver in ((lv[0], '.'.join([t, a]), av),
+                                    (lv[1], '.'.join([t, a, sv]), svv),
+                                    (lv[2], '.'.join([t, a, sv, vn]), vv)):
+                    d.setdefault(key, set()).add('.'.join(str(x) for x in ver))
+            ver_m = [sorted((k, sorted(x)) for k, x in d.items()) for d in lv]
+        ver_i = im['final'].get('versions')
+        if isinstance(ver_i, dict):
+            ver_i = {'exc': True}
+        else:
+            ver_i = [[(k, list(x)) for k, x in lvl] for lvl in ver_i]
+        if ver_m != ver_i and res['mismatch'] is None:
+            res['mismatch'] = {'history': hi, 'kind': kind, 'step': 'final-versions',
+                               'impl': repr(ver_i), 'model': repr(ver_m), 'ops': h}
+            res['versions_mismatch'] = {'impl': ver_i, 'model': ver_m, 'ops': h}
         try:
             orc = run_oracles(h, im)
         except Exception as e:   # observations too inconsistent to evaluate
@@ -922,8 +944,64 @@ def study(ctx, focus, escalate=False):
                 res['nontrivial'][p].append(
                     (p, json.dumps(h, sort_keys=True)))
     res['evals'] = res['n_ops']
+    res['finals'] = [im['final'] for im in impl]
     _CACHE[key] = res
     return res
+
+
+def versions_study(ctx):
+    '''C15, persisted side: the REAL shelve.versions() at the end of every
+    store history against (a) what the history registered (oracle, independent
+    of the model) and (b) Catalogue.versions of the model (correspondence).'''
+    res = study(ctx, 'C08', False)
+    n, nontriv, found = 0, [], False
+    for hi, ((kind, h), fin) in enumerate(zip(res['hs'], res['finals'])):
+        want = [{}, {}, {}]      # must be listed
+        may = [{}, {}, {}]       # may be listed (an update that died part way)
+        for o in h:
+            if o.get('op') not in ('upd', 'load', 'reg'):
+                continue
+            vals = o['vals'] if 'vals' in o else [[o['vn'], o['vver']]]
+            crash = o.get('crash')
+            for j, v in enumerate(vals):
+                keys = ('.'.join([o['task'], o['alg']]), '.'.join([o['task'], o['alg'], o['sv']]),
+                        '.'.join([o['task'], o['alg'], o['sv'], v[0]]))
+                sure = crash is None or 6 * j < crash
+                for lv, k, ver in zip(range(3), keys, (o['aver'], o['sver'], v[1])):
+                    vs = '.'.join(str(x) for x in ver)
+                    may[lv].setdefault(k, set()).add(vs)
+                    if sure:
+                        want[lv].setdefault(k, set()).add(vs)
+        got = fin.get('versions')
+        n += 1
+        if isinstance(got, dict):
+            continue      # versions() raised: the correspondence speaks about it
+        if sum(len(x) > 1 for x in want[0].values()):
+            nontriv.append(('versions', hi, json.dumps(sorted(want[0]))))
+        for lvl, (w, g) in enumerate(zip(want, got)):
+            g = {k: set(x) for k, x in g if '__metric__' not in k}
+            missing = {k: sorted(w[k] - g.get(k, set())) for k in w if w[k] - g.get(k, set())}
+            extra = {k: sorted(g[k] - may[lvl].get(k, set())) for k in g
+                     if g[k] - may[lvl].get(k, set())}
+            if lvl == 0:
+                # the algorithm level also lists versions reached through metric rows only
+                extra = {}
+            if (missing or extra) and not found:
+                found = True
+                ctx.violation('persisted-versions-wrong', {'level': ['alg', 'sv', 'value'][lvl],
+                                                          'missing': bool(missing)},
+                              'shelve.versions() after a %s history: level %s misses %s, lists unregistered %s'
+                              % (kind, ['algorithm', 'state vector', 'value'][lvl], missing, extra),
+                              {'source': 'oracle', 'ops': h, 'theorem': 'C15_changed_iff (persisted side)',
+                               'expected': {k: sorted(x) for k, x in w.items()},
+                               'observed': {k: sorted(x) for k, x in g.items()}})
+    ctx.count(evaluations=n, nontrivial_keys=nontriv)
+    ctx.note('persisted_versions_histories', n)
+    m = res.get('mismatch')
+    if m and m.get('step') == 'final-versions' and not found:
+        ctx.broken('correspondence: shelve.versions() and Catalogue.versions disagree',
+                   'impl =%s\nmodel=%s' % (m['impl'], m['model']),
+                   {'source': 'correspondence', 'ops': m['ops'], 'expected': m['model'], 'observed': m['impl']})
 
 
 # ---------------------------------------------------------------------------
